@@ -454,12 +454,45 @@ func runC13(c *Ctx) {
 			panic(anchorErr{"the closure stored in connmgr.Config.GetNewAddress inside NewChainService"})
 		}
 		c.R.Funcs[c.nm(cl)] = true
+		// the effect: where an address that may be returned comes into being
+		// (the non-nil leaves of the first result, looking through the merges
+		// of result variables; a value defined behind the test is returned
+		// behind it). A leaf that no instruction of the closure defines (a
+		// captured variable, a parameter) counts as the return itself.
 		var okRets []ssa.Instruction
+		seenLeaf := map[ssa.Instruction]bool{}
 		for _, in := range find(cl, isExit) {
 			v := ir.RetVal(in.(*ssa.Return), 0)
-			if !ir.IsNil(v) {
-				okRets = append(okRets, in)
+			if ir.IsNil(v) {
+				continue
 			}
+			seenV := map[ssa.Value]bool{}
+			var leaves func(x ssa.Value)
+			leaves = func(x ssa.Value) {
+				x = ir.Strip(x)
+				if x == nil || seenV[x] || ir.IsNil(x) {
+					return
+				}
+				seenV[x] = true
+				if ph, isPhi := x.(*ssa.Phi); isPhi {
+					for _, e := range ph.Edges {
+						leaves(e)
+					}
+					return
+				}
+				if def, isIn := x.(ssa.Instruction); isIn && def.Parent() == cl {
+					if !seenLeaf[def] {
+						seenLeaf[def] = true
+						okRets = append(okRets, def)
+					}
+					return
+				}
+				if !seenLeaf[in] {
+					seenLeaf[in] = true
+					okRets = append(okRets, in)
+				}
+			}
+			leaves(v)
 		}
 		g3 := boolIs("IsBanned(addrString)", find(cl, callTo(isBanned)), 0, false)
 		c.guarded(cl, g3, 1, "return an address to dial", okRets, 1, gDominate)
